@@ -41,13 +41,13 @@ theorem inv_init (k : Key) : Inv (Sys.init k) := by
   · intro id t h; simp [Sys.init, aget] at h
   · intro b h; simp [Sys.init] at h
   · intro n h; simp [Sys.init, Proxy.init] at h
-  · intro ck; simp [Sys.init, Proxy.init, cntK, keysOf, cnt, openRespN, openReqN, ahas, aget]
+  · intro ck; simp [Sys.init, Proxy.init, cntK, cnt, openRespN, openReqN, ahas, aget]
 
 /-! ### counting -/
 
 theorem cntK_cons {β} (l : List (CK × β)) (e : CK × β) (ck : CK) :
     cntK (e :: l) ck = cntK l ck + (if e.1 = ck then 1 else 0) := by
-  simp only [cntK, keysOf, List.map_cons, List.count_cons]
+  simp only [cntK, List.map_cons, List.count_cons]
   by_cases h : e.1 = ck <;> simp [h]
 
 theorem cnt_cons (l : List CK) (e ck : CK) :
@@ -98,7 +98,7 @@ theorem inv_childRequest (s : Sys) (c : Child) (r : Req) (h : Inv s) :
       | response x => exact absurd rfl (h1 x)
       | notPerformed code => rfl
       | error e => rfl
-    simp only [hg, if_neg h2]
+    simp only [if_neg h2]
     exact h
   | given x hx hk hm =>
     simp only [reduceCtorEq, if_false]
@@ -206,5 +206,325 @@ theorem inv_getRequest (s : Sys) (h : Inv s) : Inv (step s .getRequest) := by
       rcases List.mem_cons.mp hb with rfl | hb
       · exact h.nonceSeen n hn
       · exact h.reqNonces b hb
+
+theorem inv_signerInit (s : Sys) (id pk tk : Key) (num : Option Nat) (h : Inv s)
+    (ha : admissible s (.signerInit id pk tk num) = true) :
+    Inv (step s (.signerInit id pk tk num)) := by
+  simp only [step]
+  have hnew : ahas s.signers id = false := by
+    simp only [admissible, Bool.and_eq_true, Bool.not_eq_true'] at ha; exact ha.1
+  refine ⟨h.ndReq, h.ndResp, h.reqKnown, h.disj, h.reqsOpen, ?_, ?_, ?_, ?_, h.reqNonces,
+    h.nonceSeen, h.acct⟩
+  · intro id' t ht hpk rb hrb
+    rw [aget_aput] at ht
+    by_cases hid : id = id'
+    · subst hid
+      have := h.respKeys id rb hrb
+      rw [hnew] at this; cases this
+    · simp only [hid, if_false] at ht
+      exact h.link id' t ht hpk rb hrb
+  · intro id' rb hrb
+    rw [ahas_aput]; simp [h.respKeys id' rb hrb]
+  · intro i hi
+    obtain ⟨t, ht, hpk⟩ := h.assoc i hi
+    refine ⟨t, ?_, hpk⟩
+    rw [aget_aput]
+    by_cases hid : id = i.idKey
+    · have : ahas s.signers id = true := by rw [hid]; simp [ahas, ht]
+      rw [hnew] at this; cases this
+    · simp only [hid, if_false]; exact ht
+  · intro id' t ht
+    rw [aget_aput] at ht
+    by_cases hid : id = id'
+    · simp only [hid, if_true, Option.some.injEq] at ht
+      subst ht; simp [Signer.init]
+    · simp only [hid, if_false] at ht
+      exact h.signerIds id' t ht
+
+/-- Associating the proxy with the honest signer `t` (add or update). -/
+theorem inv_assoc (s : Sys) (id : Key) (t : Signer) (c : Cmd)
+    (hc : c = .addSigner t.info ∨ c = .updateSigner t.info)
+    (ht : aget s.signers id = some t) (hpk : t.proxyKey = s.proxy.idKey) (h : Inv s) :
+    Inv { s with proxy := (exec s.proxy c).1 } := by
+  cases hp : process s.proxy c with
+  | error e => rw [exec_error _ _ _ hp]; exact h
+  | ok evs =>
+    rw [exec_ok _ _ _ hp]
+    have hev : evs = [.signerAdded t.info] ∨ evs = [.signerUpdated t.info] := by
+      rcases hc with rfl | rfl
+      · left
+        simp only [process] at hp
+        split at hp
+        · cases hp
+        · cases hp; rfl
+      · right
+        simp only [process] at hp
+        split at hp
+        · split at hp
+          · cases hp; rfl
+          · cases hp
+        · cases hp
+    have hst : applyAll s.proxy evs = { s.proxy with signer := some t.info } := by
+      rcases hev with rfl | rfl <;> rfl
+    rw [hst]
+    refine ⟨h.ndReq, h.ndResp, h.reqKnown, h.disj, h.reqsOpen, h.link, h.respKeys, ?_,
+      h.signerIds, h.reqNonces, h.nonceSeen, h.acct⟩
+    intro i hi
+    simp only [Option.some.injEq] at hi
+    subst hi
+    refine ⟨t, ?_, hpk⟩
+    have := h.signerIds id t ht
+    simp only [Signer.info]
+    rw [this]; exact ht
+
+theorem inv_addSigner (s : Sys) (id : Key) (h : Inv s)
+    (ha : admissible s (.addSigner id) = true) : Inv (step s (.addSigner id)) := by
+  simp only [step]
+  cases ht : aget s.signers id with
+  | none => exact h
+  | some t =>
+    simp only [admissible, ht, beq_iff_eq] at ha
+    exact inv_assoc s id t _ (Or.inl rfl) ht ha h
+
+theorem inv_updateSigner (s : Sys) (id : Key) (h : Inv s)
+    (ha : admissible s (.updateSigner id) = true) : Inv (step s (.updateSigner id)) := by
+  simp only [step]
+  cases ht : aget s.signers id with
+  | none => exact h
+  | some t =>
+    simp only [admissible, ht, beq_iff_eq] at ha
+    exact inv_assoc s id t _ (Or.inr rfl) ht ha h
+
+theorem validFor_iff {α} [DecidableEq α] (m : Signed α) (k : Key) :
+    m.validFor k = true ↔ m.signer = k ∧ m.fresh = true ∧ m.body = m.clear := by
+  simp [Signed.validFor, and_assoc]
+
+theorem inv_sign (s : Sys) (id : Key) (m : Signed ReqBody) (ovr : Option Nat) (h : Inv s)
+    (ha : admissible s (.sign id m ovr) = true) : Inv (step s (.sign id m ovr)) := by
+  simp only [step]
+  cases ht : aget s.signers id with
+  | none => exact h
+  | some t =>
+    simp only
+    cases hp : processSignerRequest t m ovr with
+    | error e => exact h
+    | ok out =>
+      obtain ⟨t', r⟩ := out
+      simp only
+      obtain ⟨hv, _, _, _, hnonce, hkeys, hid, hpk', _, _, _⟩ :=
+        processSignerRequest_ok t t' m ovr r hp
+      obtain ⟨hsig, _, hbc⟩ := (validFor_iff m t.proxyKey).mp hv
+      refine ⟨h.ndReq, h.ndResp, h.reqKnown, h.disj, h.reqsOpen, ?_, ?_, ?_, ?_, ?_, ?_, h.acct⟩
+      · intro id' t'' ht'' hpk rb hrb
+        rw [aget_aput] at ht''
+        by_cases hidd : id = id'
+        · subst hidd
+          simp only [if_true, Option.some.injEq] at ht''
+          subst ht''
+          rw [hpk'] at hpk
+          rcases List.mem_cons.mp hrb with heq | hold
+          · simp only [Prod.mk.injEq, true_and] at heq
+            subst heq
+            have hmem : m.body ∈ s.reqs := by
+              simp only [admissible, Bool.or_eq_true, bne_iff_ne, ne_eq,
+                List.contains_iff_mem] at ha
+              rcases ha with ha | ha
+              · exact absurd (hsig.trans hpk) ha
+              · exact ha
+            refine ⟨m.body, hmem, ?_, ?_⟩
+            · rw [hnonce, hbc]
+            · rw [hkeys, hbc]
+          · exact h.link id t ht hpk rb hold
+        · simp only [hidd, if_false] at ht''
+          rcases List.mem_cons.mp hrb with heq | hold
+          · simp only [Prod.mk.injEq] at heq
+            exact absurd heq.1.symm hidd
+          · exact h.link id' t'' ht'' hpk rb hold
+      · intro id' rb hrb
+        rw [ahas_aput]
+        rcases List.mem_cons.mp hrb with heq | hold
+        · simp only [Prod.mk.injEq] at heq
+          simp [heq.1]
+        · simp [h.respKeys id' rb hold]
+      · intro i hi
+        obtain ⟨t0, ht0, hpk0⟩ := h.assoc i hi
+        rw [aget_aput]
+        by_cases hidd : id = i.idKey
+        · refine ⟨t', by simp [hidd], ?_⟩
+          rw [hpk']
+          rw [← hidd, ht] at ht0
+          simp only [Option.some.injEq] at ht0
+          rw [ht0]; exact hpk0
+        · exact ⟨t0, by simp [hidd, ht0], hpk0⟩
+      · intro id' t'' ht''
+        rw [aget_aput] at ht''
+        by_cases hidd : id = id'
+        · simp only [hidd, if_true, Option.some.injEq] at ht''
+          subst ht''
+          rw [hid, ← hidd]; exact h.signerIds id t ht
+        · simp only [hidd, if_false] at ht''
+          exact h.signerIds id' t'' ht''
+      · intro b hb; exact List.mem_cons_of_mem _ (h.reqNonces b hb)
+      · intro n hn; exact List.mem_cons_of_mem _ (h.nonceSeen n hn)
+
+theorem cntK_rev_append {β} (l1 l2 : List (CK × β)) (ck : CK) :
+    cntK (l1.reverse ++ l2) ck = cntK l1 ck + cntK l2 ck := by
+  simp [cntK, List.count_append]
+
+/-- What it takes for `process_signer_response` to accept. -/
+theorem processSignerResponse_ok (p : Proxy) (m : Signed RespBody) (evs : List Ev)
+    (h : process p (.processSignerResponse m) = .ok evs) :
+    ∃ n i, p.openNonce = some n ∧ m.clear.nonce = n ∧ p.signer = some i ∧
+      m.validFor i.idKey = true ∧ evs = [.signerResponseReceived m.clear] := by
+  simp only [process, processSignerResponse] at h
+  cases hn : p.openNonce with
+  | none => simp [hn] at h
+  | some n =>
+    simp only [hn] at h
+    by_cases hne : m.clear.nonce ≠ n
+    · simp [hne] at h
+    · simp only [hne, if_false] at h
+      cases hs : p.signer with
+      | none => simp [hs] at h
+      | some i =>
+        simp only [hs] at h
+        by_cases hv : m.validFor i.idKey = true
+        · simp only [hv, if_true, Except.ok.injEq] at h
+          exact ⟨n, i, rfl, by simpa using hne, rfl, hv, h.symm⟩
+        · simp [hv] at h
+
+theorem inv_respond (s : Sys) (m : Signed RespBody) (h : Inv s)
+    (ha : admissible s (.respond m) = true) : Inv (step s (.respond m)) := by
+  simp only [step]
+  cases hp : process s.proxy (.processSignerResponse m) with
+  | error e => exact h
+  | ok evs =>
+    simp only
+    obtain ⟨n, i, hn, hmn, hsig, hv, hev⟩ := processSignerResponse_ok _ _ _ hp
+    subst hev
+    obtain ⟨hms, _, hbc⟩ := (validFor_iff m i.idKey).mp hv
+    obtain ⟨t, ht, hpk⟩ := h.assoc i hsig
+    -- the response was made by that signer from a request this proxy signed under this nonce
+    have hres : (m.signer, m.body) ∈ s.resps := by
+      simp only [admissible, Bool.or_eq_true, Bool.not_eq_true', List.contains_iff_mem] at ha
+      rcases ha with ha | ha
+      · rw [hms] at ha; simp [ahas, ht] at ha
+      · exact ha
+    rw [hms] at hres
+    obtain ⟨b, hb, hbn, hbk⟩ := h.link i.idKey t ht hpk m.body hres
+    rw [hbc] at hbn hbk
+    obtain ⟨hnd, hopen⟩ := h.reqsOpen n hn b hb (hbn.trans hmn)
+    rw [← hbk] at hnd hopen
+    -- all entries are for known children
+    have hallk : ∀ e ∈ m.clear.entries, entryKnown s.proxy e = true := by
+      intro e he
+      have : e.1 ∈ keysOf m.clear.entries := List.mem_map_of_mem he
+      exact h.reqKnown e.1 (hopen e.1 this)
+    have hfilt : m.clear.entries.filter (entryKnown s.proxy) = m.clear.entries :=
+      List.filter_eq_self.mpr hallk
+    have hact : actedOn s.proxy.children m.clear.entries = keysOf m.clear.entries := by
+      unfold actedOn
+      have : (fun e : CK × Resp => ahas s.proxy.children e.1.1) = entryKnown s.proxy := by
+        funext e; rfl
+      rw [this, hfilt]
+    simp only [applyAll, List.foldl, apply, hfilt]
+    have hfo := fold_openReq s.proxy.children m.clear.entries s.proxy rfl
+    have hfr := fold_openResp s.proxy.children m.clear.entries s.proxy rfl
+    rw [hact] at hfo hfr
+    obtain ⟨m1, m2, m3, m4⟩ := fold_misc m.clear.entries s.proxy
+    obtain ⟨nd1, nd2⟩ := fold_nodup m.clear.entries s.proxy h.ndReq h.ndResp
+    refine ⟨nd1, nd2, ?_, ?_, ?_, ?_, h.respKeys, ?_, h.signerIds, h.reqNonces, ?_, ?_⟩
+    · intro ck hck
+      have := h.reqKnown ck ((hfo ck).mp hck).1
+      simp only [Proxy.known] at this ⊢
+      rw [fold_children]; exact this
+    · intro ck hck
+      obtain ⟨h1, h2⟩ := (hfo ck).mp hck
+      cases hx : ahas (List.foldl applyEntry s.proxy m.clear.entries).openResp ck with
+      | false => rfl
+      | true =>
+        rcases (hfr ck).mp hx with h3 | h3
+        · rw [h.disj ck h1] at h3; cases h3
+        · exact absurd h3 h2
+    · intro n' hn'; simp at hn'
+    · intro id t' ht' hpk' rb hrb
+      rw [m1] at hpk'
+      exact h.link id t' ht' hpk' rb hrb
+    · intro i' hi'
+      simp only [m2, hsig, Option.map_some, Option.some.injEq] at hi'
+      subst hi'
+      rw [m1]
+      exact ⟨t, ht, hpk⟩
+    · intro n' hn'; simp at hn'
+    · intro ck
+      obtain ⟨a1, a2⟩ := h.acct ck
+      rw [cntK_rev_append]
+      have hcount : cntK m.clear.entries ck = if ck ∈ keysOf m.clear.entries then 1 else 0 := by
+        have e : cntK m.clear.entries ck = if ahas m.clear.entries ck = true then 1 else 0 := by
+          have := count_keys m.clear.entries ck hnd
+          simp only [cntK] at this ⊢
+          exact this
+        by_cases hm : ahas m.clear.entries ck = true
+        · have hmem : ck ∈ keysOf m.clear.entries := (ahas_iff_mem _ _).mp hm
+          rw [e, if_pos hmem, if_pos hm]
+        · have hmem : ck ∉ keysOf m.clear.entries := fun x => hm ((ahas_iff_mem _ _).mpr x)
+          rw [e, if_neg hmem, if_neg hm]
+      rw [hcount]
+      simp only [openRespN, openReqN] at a1 a2 ⊢
+      by_cases hin : ck ∈ keysOf m.clear.entries
+      · have ho := hopen ck hin
+        have hr := h.disj ck ho
+        have hr' : ahas (List.foldl applyEntry s.proxy m.clear.entries).openResp ck = true :=
+          (hfr ck).mpr (Or.inr hin)
+        have ho' : ahas (List.foldl applyEntry s.proxy m.clear.entries).openReq ck = false := by
+          cases hx : ahas (List.foldl applyEntry s.proxy m.clear.entries).openReq ck with
+          | false => rfl
+          | true => exact absurd hin ((hfo ck).mp hx).2
+        simp only [hin, if_true, ho, hr, ho', hr', Bool.false_eq_true, if_false] at a1 a2 ⊢
+        omega
+      · have e1 : ahas (List.foldl applyEntry s.proxy m.clear.entries).openResp ck =
+            ahas s.proxy.openResp ck := by
+          cases hx : ahas s.proxy.openResp ck with
+          | true => exact (hfr ck).mpr (Or.inl hx)
+          | false =>
+            cases hy : ahas (List.foldl applyEntry s.proxy m.clear.entries).openResp ck with
+            | false => rfl
+            | true =>
+              rcases (hfr ck).mp hy with h3 | h3
+              · rw [hx] at h3; cases h3
+              · exact absurd h3 hin
+        have e2 : ahas (List.foldl applyEntry s.proxy m.clear.entries).openReq ck =
+            ahas s.proxy.openReq ck := by
+          cases hx : ahas s.proxy.openReq ck with
+          | true => exact (hfo ck).mpr ⟨hx, hin⟩
+          | false =>
+            cases hy : ahas (List.foldl applyEntry s.proxy m.clear.entries).openReq ck with
+            | false => rfl
+            | true => rw [((hfo ck).mp hy).1] at hx; cases hx
+        simp only [hin, if_false, e1, e2]
+        omega
+
+/-- Every admissible step keeps the invariant. -/
+theorem inv_step (s : Sys) (o : Op) (h : Inv s) (ha : admissible s o = true) : Inv (step s o) := by
+  cases o with
+  | addChild c res => exact inv_addChild s c res h
+  | childRequest c r => exact inv_childRequest s c r h
+  | makeRequest n => exact inv_makeRequest s n h ha
+  | getRequest => exact inv_getRequest s h
+  | signerInit id pk tk num => exact inv_signerInit s id pk tk num h ha
+  | addSigner id => exact inv_addSigner s id h ha
+  | updateSigner id => exact inv_updateSigner s id h ha
+  | sign id m ovr => exact inv_sign s id m ovr h ha
+  | respond m => exact inv_respond s m h ha
+
+theorem inv_run (s s' : Sys) (ops : List Op) (h : Inv s) (hr : run s ops = some s') : Inv s' := by
+  induction ops generalizing s with
+  | nil => simp only [run, Option.some.injEq] at hr; subst hr; exact h
+  | cons o t ih =>
+    simp only [run] at hr
+    split at hr
+    · rename_i ha
+      exact ih (step s o) (inv_step s o h ha) hr
+    · cases hr
 
 end KM.Ta
